@@ -48,6 +48,11 @@ def rule_sets(rng):
     out.append(("shared-prefix-group", Eflat, ("or", ("group", ("and", ("fwd", 0), ("lit", cmp_ops[0]), ("fwd", 0))), ("and", ("fwd", 0), ("lit", cmp_ops[1]), ("fwd", 0))),
                 ("or", ("group", ("and", It, ("lit", cmp_ops[0]), It)), ("and", It, ("lit", cmp_ops[1]), It)), "flat",
                 lambda: expr_string(rng, [ops1]) + rng.choice(cmp_ops[:2]) + expr_string(rng, [ops1])))
+    # error stop inside the recursive alternative: a dangling operator must abort with ParseSyntaxException in both forms
+    # (MatchFirst body only: '^' raises a fatal exception only when no alternative matches, so there the two forms differ by design)
+    out.append(("direct-errorstop", {0: ("mf", ("andstop", 2, ("fwd", 0), mk_ops(ops1), N), N)}, ("fwd", 0),
+                ("and", N, ("star", ("andstop", 1, mk_ops(ops1), N))), "flat",
+                lambda: expr_string(rng, [ops1]) + rng.choice(["", "", " ", ops1[0], " " + ops1[-1] + " ", ops1[0] + "x"])))
     # no base case
     out.append(("no-base", {0: ("and", ("fwd", 0), ("lit", "a"))}, ("fwd", 0), None, "nobase", lambda: "a" * rng.randint(0, 3)))
     out.append(("no-base-alt", {0: ("mf", ("and", ("fwd", 0), ("lit", "a")), ("and", ("fwd", 0), ("lit", "b")))}, ("fwd", 0), None, "nobase",
